@@ -1,21 +1,210 @@
 (* C07 — Context operations on BDDs equal the same operations on sets of
    assignments.  Statements only; proofs in theories/L0Bits/BitsFacts.v and
-   theories/L3Context/CtxFacts.v. *)
+   theories/L3Context/CtxFacts.v.
+
+   Reading guide.  [t] is the declaration table of a fol.Context; a BDD [u] is
+   modelled by its meaning on bit assignments and [uses_only (all_bits t) u]
+   says it lives in the context's manager.  [sem t u f] is the truth of u at
+   the first-order assignment f (integers/Booleans); [in_range t f] says f
+   takes representable values (inside the bitfield limits).  The explicit set
+   of assignments denoted by u is { f | in_range t f /\ sem t u f = true }. *)
 From Coq Require Import ZArith List Bool String Lia.
-From Omega Require Import L0Bits.Bits L0Bits.BitsFacts L3Context.Ctx.
+From Omega Require Import L0Bits.Bits L0Bits.BitsFacts L3Context.Ctx L3Context.CtxFacts.
 Import ListNotations.
 Open Scope Z_scope.
 
-(* the values enumerated from a partial bit vector are exactly the values of
-   the total vectors that agree with it, each exactly once *)
+(* ---- the refinement is a bijection ------------------------------------------------ *)
+(* every bit assignment is (on the declared bits) the refinement of exactly the
+   assignment of representable values it decodes to *)
+Theorem C07_bits_values_bijection : forall t, wf_tbl t ->
+  (forall f x d, in_range t f -> In (x, d) t -> decode t (encode t f) x = f x) /\
+  (forall a b, In b (all_bits t) -> encode t (decode t a) b = a b) /\
+  (forall a, in_range t (decode t a)).
+Proof.
+  intros t Hwf. split; [|split].
+  - intros f x d Hf Hin. apply (decode_encode_f t f x d); auto.
+  - intros a b Hb. apply encode_decode_b; auto.
+  - intro a. apply decode_in_range; auto.
+Qed.
+
+(* ---- enumeration of a partial bit vector -------------------------------------------- *)
 Theorem C07_enumerate_int_spec : forall bs, bs <> [] ->
   (forall v, In v (enumerate_int bs) <->
              exists l, agrees bs l /\ twos_complement_to_int l = v) /\
   NoDup (enumerate_int bs).
 Proof. exact enumerate_int_spec. Qed.
 
-Example C07_enumerate_int_example :
-  enumerate_int [None; Some true; None] = [-4 + 2; -4 + 2 + 1; 0 + 2; 0 + 2 + 1].
-Proof. reflexivity. Qed.
+(* ---- substitution of values ---------------------------------------------------------- *)
+Theorem C07_let_values_spec : forall t defs u,
+  wf_tbl t -> uses_only (all_bits t) u -> vals_ok t defs ->
+  exists r, ctx_let_vals t defs u = Some r /\ uses_only (all_bits t) r /\
+    forall f, sem t r f = sem t u (foverride f defs).
+Proof. exact let_values_spec. Qed.
 
+(* ---- substitution of same-typed variables ---------------------------------------------- *)
+Theorem C07_rename_spec : forall t ren u,
+  wf_tbl t -> uses_only (all_bits t) u -> ren_ok t ren ->
+  exists r, ctx_let_vars t ren u = Some r /\ uses_only (all_bits t) r /\
+    forall f, sem t r f = sem t u (frename f ren).
+Proof. exact rename_spec. Qed.
+
+(* ---- quantification: over exactly the representable values ------------------------------- *)
+Theorem C07_exist_spec : forall t qvars u,
+  wf_tbl t -> uses_only (all_bits t) u ->
+  (forall x, In x qvars -> exists d, tlookup x t = Some d) ->
+  exists r, ctx_exist t qvars u = Some r /\ uses_only (all_bits t) r /\
+    forall f, in_range t f ->
+      (sem t r f = true <->
+       exists f', in_range t f' /\ agree_off qvars f f' /\ sem t u f' = true).
+Proof. exact exist_spec. Qed.
+
+Theorem C07_forall_spec : forall t qvars u,
+  wf_tbl t -> uses_only (all_bits t) u ->
+  (forall x, In x qvars -> exists d, tlookup x t = Some d) ->
+  exists r, ctx_forall t qvars u = Some r /\ uses_only (all_bits t) r /\
+    forall f, in_range t f ->
+      (sem t r f = true <->
+       forall f', in_range t f' -> agree_off qvars f f' -> sem t u f' = true).
+Proof. exact forall_spec. Qed.
+
+(* ---- construction from an assignment ------------------------------------------------------ *)
+Theorem C07_assign_from_spec : forall t m, wf_tbl t -> vals_ok t m ->
+  exists r, ctx_assign_from t m = Some r /\ uses_only (all_bits t) r /\
+    forall f, in_range t f -> (sem t r f = true <-> extends f m).
+Proof. exact assign_from_spec. Qed.
+
+(* ---- support -------------------------------------------------------------------------------- *)
+Theorem C07_support_spec : forall t u, wf_tbl t -> uses_only (all_bits t) u ->
+  exists s, ctx_support t u = Some s /\ NoDup s /\
+    forall x, In x s <->
+      exists d f v, In (x, d) t /\ in_range t f /\ val_in_range d v = true /\
+                    sem t u f <> sem t u (fupd f x v).
+Proof. exact support_spec. Qed.
+
+(* ---- Boolean combination ---------------------------------------------------------------------- *)
+Theorem C07_apply_spec : forall t op u v w r, bapply op u v w = Some r ->
+  forall f, sem t r f =
+    match op, v, w with
+    | OpNot, _, _ => negb (sem t u f)
+    | OpAnd, Some v, _ => sem t u f && sem t v f
+    | OpOr, Some v, _ => sem t u f || sem t v f
+    | OpXor, Some v, _ => xorb (sem t u f) (sem t v f)
+    | OpImplies, Some v, _ => implb (sem t u f) (sem t v f)
+    | OpEquiv, Some v, _ => Bool.eqb (sem t u f) (sem t v f)
+    | OpDiff, Some v, _ => sem t u f && negb (sem t v f)
+    | OpIte, Some v, Some w => if sem t u f then sem t v f else sem t w f
+    | _, _, _ => false
+    end.
+Proof. exact apply_spec. Qed.
+
+(* ---- pick_iter ----------------------------------------------------------------------------------
+   For ANY list of cubes meeting the contract of dd.pick_iter for (u, care bits):
+   the iteration succeeds; the yielded dictionaries are pairwise distinct, hold
+   representable values, have no common extension (pairwise incompatible),
+   every extension of one satisfies u, and every satisfying assignment extends
+   exactly one. *)
+Theorem C07_pick_iter_spec : forall t u care_vars cb cubes,
+  wf_tbl t -> uses_only (all_bits t) u ->
+  care_bits_of t care_vars = Some cb ->
+  contract (all_bits t) u cb cubes ->
+  exists ds, ctx_pick_iter t u care_vars cubes = Some ds /\
+    NoDup ds /\
+    (forall d, In d ds -> NoDup (map fst d) /\
+       forall y w, In (y, w) d -> exists dy, In (y, dy) t /\ val_in_range dy w = true) /\
+    (forall d f, In d ds -> in_range t f -> extends f d -> sem t u f = true) /\
+    (forall f, in_range t f -> sem t u f = true -> exists d, In d ds /\ extends f d) /\
+    (forall f d1 d2, in_range t f -> In d1 ds -> In d2 ds ->
+       extends f d1 -> extends f d2 -> d1 = d2).
+Proof.
+  intros t u care_vars cb cubes Hwf Hu Hcare Hct.
+  eexists. split; [apply (pick_iter_value t u care_vars cb cubes); auto|].
+  split; [apply (pick_iter_nodup t u cb cubes); auto|].
+  split; [intros d Hd; apply (pick_iter_values t cubes Hwf d Hd)|].
+  split; [intros d f; apply (pick_iter_sound t u cb cubes); auto|].
+  split; [intros f; apply (pick_iter_complete t u cb cubes); auto|].
+  intros f d1 d2. apply (pick_iter_unique t u cb cubes); auto.
+Qed.
+
+(* the Boolean contract evaluated on the real cubes on every run implies the
+   contract used above *)
+Theorem C07_contract_checked : forall univ u care cubes, uses_only univ u ->
+  cube_contract_b univ u care cubes = true -> contract univ u care cubes.
+Proof. exact contract_of_bool. Qed.
+
+(* with care_vars = None or care_vars >= support, every yielded dictionary is
+   total over support \/ care_vars: with the above, iteration yields every
+   satisfying assignment over the requested variables exactly once and nothing
+   else *)
+Theorem C07_pick_iter_total : forall t u care_vars cb cubes s,
+  wf_tbl t -> uses_only (all_bits t) u ->
+  care_bits_of t care_vars = Some cb ->
+  contract (all_bits t) u cb cubes ->
+  ctx_support t u = Some s ->
+  match care_vars with
+  | None => True
+  | Some cv => forall x, In x s -> In x cv
+  end ->
+  forall ds, ctx_pick_iter t u care_vars cubes = Some ds ->
+  forall d, In d ds ->
+  forall y, In y (map fst d) <->
+            In y s \/ In y (match care_vars with Some cv => cv | None => [] end).
+Proof.
+  intros t u care_vars cb cubes s Hwf Hu Hcare Hct Hs Hcov ds Hds d Hd.
+  rewrite (pick_iter_value t u care_vars cb cubes) in Hds by auto.
+  inversion Hds; subst ds.
+  apply (pick_iter_total t u care_vars cb cubes s); auto.
+Qed.
+
+(* non-vacuity: the hypotheses (incl. the dd.pick_iter contract) are satisfiable *)
+Example C07_hypotheses_satisfiable :
+  let t : tbl := [("x"%string, DInt (mkHint 2 false (0, 2))); ("b"%string, DBool)] in
+  let u : pred := fun a => a ("x"%string, 0%nat) || a ("b"%string, 0%nat) in
+  uses_only (all_bits t) u /\ wf_tbl t /\
+  contract (all_bits t) u (Some (all_bits t)) (canonical_cubes (all_bits t) u) /\
+  care_bits_of t (Some ["x"%string; "b"%string]) = Some (Some (all_bits t)).
+Proof. exact canonical_cubes_contract. Qed.
+
+Example C07_vals_ok_example :
+  vals_ok [("x"%string, DInt (mkHint 2 false (0, 2))); ("b"%string, DBool)]
+          [("x"%string, VZ 3); ("b"%string, VB true)].
+Proof.
+  split.
+  - repeat constructor; cbn; intuition; discriminate.
+  - intros x v [E|[E|[]]]; inversion E; subst; eexists; split; reflexivity.
+Qed.
+
+Example C07_ren_ok_example :
+  ren_ok [("x"%string, DInt (mkHint 2 false (0, 2))); ("y"%string, DInt (mkHint 2 false (0, 2)))]
+         [("x"%string, "y"%string); ("y"%string, "x"%string)].
+Proof.
+  split.
+  - repeat constructor; cbn; intuition; discriminate.
+  - intros x y [E|[E|[]]]; inversion E; subst; eexists; repeat split;
+      try reflexivity; discriminate.
+Qed.
+
+(* the full property; [C07_full_count] is the part not proved as a theorem
+   (see the report): count = number of dictionaries yielded *)
+Definition C07_full_count : Prop :=
+  forall t u care_vars cb cubes s n ds,
+  wf_tbl t -> uses_only (all_bits t) u ->
+  care_bits_of t care_vars = Some cb ->
+  contract (all_bits t) u cb cubes ->
+  ctx_support t u = Some s ->
+  match care_vars with None => True | Some cv => forall x, In x s -> In x cv end ->
+  ctx_count t u care_vars = Some n ->
+  ctx_pick_iter t u care_vars cubes = Some ds ->
+  n = Z.of_nat (List.length ds).
+
+Print Assumptions C07_bits_values_bijection.
 Print Assumptions C07_enumerate_int_spec.
+Print Assumptions C07_let_values_spec.
+Print Assumptions C07_rename_spec.
+Print Assumptions C07_exist_spec.
+Print Assumptions C07_forall_spec.
+Print Assumptions C07_assign_from_spec.
+Print Assumptions C07_support_spec.
+Print Assumptions C07_apply_spec.
+Print Assumptions C07_pick_iter_spec.
+Print Assumptions C07_contract_checked.
+Print Assumptions C07_pick_iter_total.
